@@ -196,7 +196,7 @@ func parentMain() {
 	}
 	if raceBin != "" {
 		children = append(children, &childRun{part: "mconn", bin: raceBin, wdog: time.Duration(lib.Pick(10, 40)) * time.Minute,
-			env: []string{"GORACE=halt_on_error=0 log_path=" + raceLog}})
+			env: []string{"GORACE=halt_on_error=0 exitcode=0 log_path=" + raceLog}})
 	} else {
 		run.Inconclusive("VERIF_RACE_BIN not set: the MConnection monitor needs the -race build (run through ./check)")
 	}
@@ -252,8 +252,8 @@ func parentMain() {
 	run.Require("mitm_completed_as_itself:own-key", 10)
 	run.Require("remote_pubkey_checked", 1000)
 	if raceBin != "" {
-		run.Require("c_sessions", int64(lib.Pick(100, 4000)))
-		run.Require("c_msgs_received", int64(lib.Pick(3000, 100000)))
+		run.Require("c_sessions", int64(lib.Pick(100, 2000)))
+		run.Require("c_msgs_received", int64(lib.Pick(5000, 100000)))
 		run.Require("c_trysend_refused", 1)
 		run.Require("c_multi_packet_msgs", 100)
 	}
